@@ -33,8 +33,9 @@ FREE_TABLE = {
     Y + 'put': ('speculative', 'root border that lost the CAS, never published'),
     Y + 'storage::create_storage': ('speculative', 'root border of a storage whose unique insert failed'),
     Y + 'value::delete_value': ('primitive', 'the release primitive itself'),
-    Y + 'link_or_value::set_value': ('exception', 'old_value == nullptr: only reachable from the inline-value '
-                                                  'overwrite, where the slot never holds an out-of-line block'),
+    Y + 'link_or_value::set_value': ('exception', 'old_value == nullptr: only reachable from the insert into a fresh '
+                                                  'slot (every overwrite of a looked-up entry passes old_value, checked '
+                                                  'at the call sites)'),
 }
 
 
@@ -107,6 +108,39 @@ def rule_wmf(S):
     S.ob('R-WMF', sv.qname, 'direct free only when no old_value out-pointer is given', res['ok'] and res['seen'],
          'guarded by old_value == nullptr' if res['ok'] else 'the displaced value can be freed although the caller asked for it',
          loc=sv.loc, path=res['path'])
+    # callers of set_value: an existing entry's slot may hold an out-of-line value whatever the value type of the call is
+    # (finding F9), so whoever overwrites an entry found by a lookup must take the displaced value and retire it
+    ncall = 0
+    for f in facts.functions.values():
+        for nd in f.all_nodes():
+            if not is_call(nd, cq=Y + 'link_or_value::set_value'):
+                continue
+            ncall += 1
+            args = call_args(f, nd)
+            third = f.strip(args[2], casts=True) if len(args) > 2 else None
+            takes_old = third is not None and third['k'] != 'CXXDefaultArgExpr' and R.const_of(f, third) != 'null'
+            rv = root_var(f, call_recv(f, nd))
+            looked_up = False
+            if rv is not None:
+                for x in f.all_nodes():
+                    if x['k'] in CALL_KINDS and (x.get('cn') or '').startswith('get_lv_of') and R.assigned_var(f, x) == rv:
+                        looked_up = True
+            ef = enclosing(facts, f)
+            fname = ef.qname + ('<%s>' % ef.targs if ef.targs else '')
+            if looked_up:
+                S.ob('R-WMF', fname, 'set_value on an entry found by lookup at %s' % short_loc(nd), takes_old,
+                     'the displaced value is handed to the caller (old_value out-pointer) and retired' if takes_old else
+                     'overwrites an existing entry without taking the displaced value: set_value frees it at once '
+                     'although open sessions may hold it (the slot can hold an out-of-line value even when the new '
+                     'value is inline)', loc=short_loc(nd))
+            else:
+                fresh = ef.qname in (Y + 'border_node::insert_lv_at', Y + 'border_node::set_lv_value')
+                S.ob('R-WMF', fname, 'set_value without lookup at %s' % short_loc(nd), fresh or takes_old,
+                     'fresh slot of an insert (nothing displaced)' if fresh else
+                     ('takes the displaced value' if takes_old else
+                      'set_value without old_value outside the insert path: a displaced value would be freed at once'),
+                     loc=short_loc(nd))
+    S.require('R-WMF', 'call sites of link_or_value::set_value', ncall, 3)
     # speculative sites
     for q, arg in ((Y + 'put', None), (Y + 'storage::create_storage', None)):
         for f in facts.by_qname(q):
